@@ -357,6 +357,19 @@ def make_out(rng, tier):
         img = np.round(rng.integers(-3000, 3001, size=(Ks, Kt, T)) * gains[..., None]).astype(dt)
         noi = rng.integers(-100, 101, size=(Kt, T)).astype(dt)
         kind = 'pcm-' + np.dtype(dt).name
+    if _NO[0] % 5 == 2:
+        # four or five outputs, two sources contest the same output (both are strongest there): taking the strongest pair first
+        # is not the power-maximising selection
+        Ks = int(rng.integers(2, 4)); Kt = int(rng.integers(4, 6)); T = int(rng.integers(32, 200))
+        gains = 0.05 * rng.uniform(0.5, 1.5, size=(Ks, Kt))
+        o = rng.permutation(Kt)
+        gains[0, o[0]], gains[0, o[1]] = 4.0, 3.6
+        gains[1, o[0]], gains[1, o[1]] = 3.6, 0.5
+        if Ks == 3:
+            gains[2, o[2]] = 2.0
+        img = rng.normal(size=(Ks, Kt, T)) * gains[..., None] * 10.0 ** rng.uniform(-2, 2)
+        noi = rng.normal(size=(Kt, T)) * 1e-2 * np.abs(img).mean()
+        kind = 'contested'
     _NO[0] += 1
     if kind == 'random' and _NO[0] % 5 == 0:
         # more outputs than sources, and a loud source leaks so strongly into a spare output that this output carries more
